@@ -18,7 +18,7 @@ RULE = (
     "inline style declarations must trigger exactly the bundled style rules. "
     "part X (context rules): a probe schema with a high-priority rule restricted by a context "
     "expression and an unrestricted fallback for the same tag; the node produced for every probe "
-    "element is compared with a reference context matcher over the open ancestors. part Z (rule zoo): the list schema extended with rules that use priority, getAttrs declining a match, contentElement, preserveWhitespace on ordinary blocks, ignore, skip, closeParent, consuming:false, style rules with getAttrs and clearMark, fed the same hostile HTML with the triggering elements spliced in - same oracle (returns within budget, valid document). Style rules restricted by a context (bare property and property=value form) are probed the same way on marked words. part E (export): "
+    "element is compared with a reference context matcher over the open ancestors. part Z (rule zoo): the list schema extended with rules that use priority, getAttrs declining a match, contentElement, preserveWhitespace on ordinary blocks, ignore, skip, closeParent, consuming:false, style rules with getAttrs and clearMark, fed the same hostile HTML with the triggering elements spliced in - same oracle (returns within budget, valid document). The same probes run through parse_slice with ParseOptions.context pointing into an existing document (the open ancestors then start with that position's ancestors). Style rules restricted by a context (bare property and property=value form) are probed the same way on marked words. part E (export): "
     "valid generated documents serialise without error; the output re-parsed by lxml has the "
     "document's text and attribute values (injected < > & \" ' never create elements). part R (round "
     "trip): constructed whitespace-normal documents (single spaces between differently marked words, "
@@ -461,6 +461,64 @@ def check_style_context(ctx, rnd):
     ctx.cover(["XS", context, any(ref_context_match(sch, context, c) for c, _k in expected)], nontrivial=True)
 
 
+def check_context_option(ctx, rnd):
+    """Context rules when the caller supplies the context (ParseOptions.context = a resolved
+    position of an existing document, as a paste handler does): the open ancestors are the
+    ancestors of that position followed by the nodes opened while parsing the slice."""
+    import itertools
+
+    import lxml.html
+    from prosemirror.model import DOMParser
+    from prosemirror.model.from_dom import ParseOptions
+
+    context = rnd.choice(CONTEXTS)
+    sch = probe_schema(context)
+    S = sch.schema
+    par_ = lambda *c: S.node("paragraph", None, list(c))  # noqa: E731
+    cdoc = S.node("doc", None, [S.node("blockquote", None, [par_(S.text("x")), S.node("blockquote", None, [par_()])]),
+                                S.node("bullet_list", None, [S.node("list_item", None, [par_(S.text("y"))])]), par_(S.text("z"))])
+    cands = [q for q in range(cdoc.content.size + 1) if not cdoc.resolve(q).parent.inline_content]
+    rp = cdoc.resolve(rnd.choice(cands))
+    cchain = [rp.node(d_).type.name for d_ in range(rp.depth + 1)]
+    expected = []
+    html = gen_probe_html(rnd, cchain, expected)
+    if not expected:
+        return
+    det = {"html": html[:1500], "context": context, "context_position_ancestors": cchain}
+    try:
+        frag = lxml.html.fragment_fromstring(html, create_parent="document-fragment")
+        for d_ in itertools.chain([frag], frag.iterdescendants()):  # text children as parse() prepares them
+            if isinstance(d_.tag, str) and d_.text and d_.tag.lower() != "lxmltext":
+                ch = lxml.html.Element("lxmltext")
+                ch.text = d_.text
+                d_.insert(0, ch)
+                d_.text = None
+            if d_.tail:
+                pr = d_.getparent()
+                ch = lxml.html.Element("lxmltext")
+                ch.text = d_.tail
+                pr.insert(pr.index(d_) + 1, ch)
+                d_.tail = None
+        sl = watch().run(5000 * (len(html) + 10), lambda: DOMParser.from_schema(S).parse_slice(frag, ParseOptions(context=rp)))
+    except BaseException as e:
+        ctx.violation("import-raised", "parse_slice with a context position raised %s: %s" % (type(e).__name__, str(e)[:200]), det,
+                      {"part": "context-option", "exc": type(e).__name__})
+        return
+    got = []
+    sl.content.descendants(lambda n, pos, par, idx: got.append(n.type.name) if n.type.name in ("ctxa", "ctxb") else None)
+    exp = ["ctxa" if ref_context_match(sch, context, ch) else "ctxb" for ch in expected]
+    ctx.count("context_option_probes", len(exp))
+    ctx.ev()
+    if got != exp:
+        k = next((j for j, (x, y) in enumerate(zip(got, exp)) if x != y), min(len(got), len(exp)))
+        ctx.violation("context-rule", "context %r with ParseOptions.context inside %r: probe %d (open ancestors %r) produced %s, the expression %s match" % (
+            context, cchain, k + 1, expected[k] if k < len(expected) else None, got[k] if k < len(got) else None,
+            "does" if k < len(exp) and exp[k] == "ctxa" else "does not"), {**det, "got": got, "expected": exp},
+            {"context": context, "context_option": True, "expected_a": k < len(exp) and exp[k] == "ctxa"})
+    else:
+        ctx.cover(["XO", context, len(cchain), "ctxa" in exp], nontrivial=True)
+
+
 def check_context(ctx, rnd):
     context = rnd.choice(CONTEXTS)
     sch = probe_schema(context)
@@ -853,6 +911,8 @@ def case(ctx, rnd, i):
             check_context(ctx, rnd)
         for _ in range(2):
             check_style_context(ctx, rnd)
+        for _ in range(2):
+            check_context_option(ctx, rnd)
         check_styles(ctx, sch, rnd)
         zoo = zoo_schema()
         for _ in range(4):
